@@ -159,6 +159,9 @@ def gen(t, tier):
     # SQLite caches in write-ahead-log mode, with the server process keeping its connections open while the tiles are stored:
     # commits go to the -wal file, the main database file (and its time stamp) is not touched until a checkpoint
     sc['wal'] = b['type'] in ('sqlite', 'mbtiles') and bool(t.chance(0.4))
+    # another process holds the write lock of one of the cache's database files for longer than the cleanup is willing to
+    # wait: the cleanup may fail loudly, it must not report success with the expired tiles still there
+    sc['db_locked'] = b['type'] in ('sqlite', 'mbtiles') and not sc['coverage'] and bool(t.chance(0.15))
     # the cache has a coverage of its own (it was narrowed to a region after the tiles were stored): what the cleanup task
     # selects is still what has to go
     sc['cache_coverage'] = [t.choice(5) / 8.0, t.choice(5) / 8.0, t.randint(4, 8) / 8.0, t.randint(4, 8) / 8.0] \
@@ -192,7 +195,7 @@ def shrink(sc):
                 yield c
         size //= 2
     for key, simple in (('coverage', None), ('cov_srs', '3857'), ('meta_size', [1, 1]), ('salt', None), ('after', 0.0),
-                        ('cache_refresh', None), ('cache_coverage', None), ('wal', False), ('pre_task', None), ('old_dirs', False), ('slow_remove', None), ('vanish', None)):
+                        ('cache_refresh', None), ('cache_coverage', None), ('wal', False), ('db_locked', False), ('pre_task', None), ('old_dirs', False), ('slow_remove', None), ('vanish', None)):
         if sc.get(key, simple) != simple:
             c = copy.deepcopy(sc)
             c[key] = simple
@@ -284,6 +287,8 @@ def _run(sc, tape):
         cache_conf['filename'] = realdir + '/c.mbtiles'
     if sc.get('wal'):
         cache_conf['sqlite_wal'] = True
+    if sc.get('db_locked'):
+        cache_conf['sqlite_timeout'] = 0.2
     elif b['type'] == 'geopackage':
         if b.get('levels'):
             cache_conf['directory'] = realdir + '/gp'
@@ -568,13 +573,32 @@ def _run(sc, tape):
             restore.append(lambda: setattr(cls_, 'remove_tile', orig_remove))
             faults['slow_removals'] = 1
         out = io.StringIO()
+        blocker = None
+        if sc.get('db_locked') and realdir is not None:
+            import sqlite3
+            dbs = sorted(os.path.join(r_, f_) for r_, _d, fs_ in os.walk(realdir) for f_ in fs_ if f_.endswith(('.mbtile', '.mbtiles')))
+            if dbs:
+                blocker = sqlite3.connect(dbs[sc['k'] % len(dbs)], isolation_level=None)
+                blocker.execute('BEGIN IMMEDIATE')
+                faults['database_write_lock_held_by_other_process'] = 1
+        reported_failure = False
         try:
             with contextlib.redirect_stdout(out):
                 cleanup(tasks, concurrency=2, dry_run=False, skip_geoms_for_last_levels=0, verbose=False, progress_logger=None)
-        except (NotImplementedError, OSError, KeyError, TypeError, ValueError, AttributeError) as ex:
-            import traceback
-            result['bad'] = ('raises:' + type(ex).__name__, 'cleanup raised %r\n%s' % (ex, ''.join(traceback.format_tb(ex.__traceback__)[-3:])))
-            return
+        except Exception as ex:
+            if blocker is not None and type(ex).__name__ == 'OperationalError' and 'locked' in str(ex):
+                reported_failure = True     # the cleanup said it failed: what it left behind is not judged
+                probes['cleanup_failed_loudly_on_locked_database'] = 1
+            elif not isinstance(ex, (NotImplementedError, OSError, KeyError, TypeError, ValueError, AttributeError)):
+                raise
+            else:
+                import traceback
+                result['bad'] = ('raises:' + type(ex).__name__, 'cleanup raised %r\n%s' % (ex, ''.join(traceback.format_tb(ex.__traceback__)[-3:])))
+                return
+        finally:
+            if blocker is not None:
+                blocker.execute('ROLLBACK')
+                blocker.close()
         sched.check_alive()
         if hasattr(cache, 'cleanup'):
             cache.cleanup()
@@ -634,7 +658,7 @@ def _run(sc, tape):
                      else 'its meta tile lies outside the coverage')
                 result['bad'] = ('removed-wrongly', 'tile %s was removed although %s' % (coord, why))
                 return
-            elif want == 'remove' and present:
+            elif want == 'remove' and present and not reported_failure:
                 result['bad'] = ('not-removed', 'tile %s (level selected, written %s, threshold %s, inside the coverage) was not '
                                  'removed' % (coord, _fmt(ts), 'remove_all' if remove_all else _fmt(Tlo)))
                 return
